@@ -74,7 +74,7 @@ ARMS = [
     arm("TypeQ", "OpCode::TypeQ", cl1("OpCode::TypeQ", "input")), arm("Dup", "OpCode::Dup"),
 ]
 UNIT = Unit(
-    name="exec", uses="group_melvm_axioms",
+    name="exec", lemma_obs=['lemma_std_sig_covenant'], uses="group_melvm_axioms",
     prelude=["core.rs", "raw.rs", "crypto.rs", "melvm_types.rs", "melvm_exec.rs", "melvm_conv.rs"],
     lemmas=["sums.rs", "melvm_spec.rs"],
     items=[
@@ -197,5 +197,11 @@ pub broadcast axiom fn axiom_program_len(v: Vec<OpCode>) ensures #[trigger] v@.l
            rewrites=[("SUB", "self.0.to_vec()", "arc_to_vec(&self.0)")],
            ensures=mv_execute()["ensures"] + [C("sem", "run_result(self@, VM { stack: Seq::<Value>::empty(), heap: env_heap(*tx, env), pc: 0, loops: Seq::<LoopState>::empty() }, res)", "C04", "C10",
                       note="Covenant::execute = the MelVM run (run_result) of this covenant's instructions from the empty stack and the heap holding exactly this spend's environment")]),
+        Fn("lib/melvm/src/lib.rs", "from_ops", impl="Covenant", home="C12", implicit_props=("C09", "C12"), ensures=[C("ops", "res@ == ops@", "C12", "C04")]),
+        Fn("lib/melvm/src/lib.rs", "std_ed25519_pk_legacy", impl="Covenant", home="C04", implicit_props=("C09", "C04"),
+           ensures=[C("program", "is_std_sig(res@, pk.0@, true)", "C04", note="with lemma_std_sig_covenant: spendable exactly by a valid signature of this key over the signature-free hash in slot 0")]),
+        Fn("lib/melvm/src/lib.rs", "std_ed25519_pk_new", impl="Covenant", home="C04", implicit_props=("C09", "C04"),
+           ensures=[C("program", "is_std_sig(res@, pk.0@, false)", "C04", note="with lemma_std_sig_covenant: spendable exactly by a valid signature of this key in the slot of the spender's own input position")]),
+        Fn("lib/melvm/src/lib.rs", "always_true", impl="Covenant", home="C04", implicit_props=("C09",), ensures=[C("program", "res@.len() == 1 && is_push_int(res@[0], 1)", "C04")]),
     ],
 )
